@@ -669,20 +669,87 @@ func c11ShowProbes(get func(string) []string, probes []string) string {
 // Clone calls, with the Go side's own bookkeeping of what each one must enforce.
 type c11Family struct {
 	clients []*Client
-	want    [][]c11Pol // bookkeeping: policies client k must enforce
+	want    [][]c11Pol // bookkeeping: policies client k must enforce (the argument's VALUE at the call)
 	parent  []int      // -1 for client 0
 	depth   []int
 	ownSet  []bool // SetRedirectPolicy (non-empty) called on it since it exists
 	parSet  []bool // its parent was re-configured after the clone was taken
 	ops     []string
 	emptied bool
+	// caller-owned argument storage: policy arrays (full capacity; nil cells = spare capacity) that
+	// SetRedirectPolicy calls are fed sub-slices of, and that the caller may write to afterwards
+	arrs      [][]RedirectPolicy
+	arrDesc   [][]c11Pol
+	alias     []*[3]int // per client: (array, offset, length) its last set came from, nil = literal arguments
+	writes    bool      // the caller also overwrites cells after the calls
+	shared    bool      // some client was configured from a slice of an array
+	callerWrote bool
 }
 
 // c11DefaultPols is what C() installs.
 var c11DefaultPols = []c11Pol{{kind: "max", n: 10}}
 
 func c11NewFamily(root *Client, rootPols []c11Pol) *c11Family {
-	return &c11Family{clients: []*Client{root}, want: [][]c11Pol{rootPols}, parent: []int{-1}, depth: []int{0}, ownSet: []bool{false}, parSet: []bool{false}}
+	return &c11Family{clients: []*Client{root}, want: [][]c11Pol{rootPols}, parent: []int{-1}, depth: []int{0}, ownSet: []bool{false}, parSet: []bool{false},
+		alias: []*[3]int{nil}}
+}
+
+// alloc: the caller builds a policy array holding ps with `extra` cells of spare capacity.
+func (f *c11Family) alloc(ps []c11Pol, extra int) int {
+	desc := append([]c11Pol(nil), ps...)
+	for k := 0; k < extra; k++ {
+		desc = append(desc, c11Pol{kind: "nil"})
+	}
+	arr := make([]RedirectPolicy, len(desc))
+	for k, p := range desc {
+		arr[k] = p.real()
+	}
+	f.arrs, f.arrDesc = append(f.arrs, arr), append(f.arrDesc, desc)
+	f.ops = append(f.ops, "a."+c11EncPols(desc))
+	return len(f.arrs) - 1
+}
+
+// setSlice: clients[i].SetRedirectPolicy(arr[off:off+n]...) - the variadic parameter IS that slice, its
+// capacity reaching to the end of the caller's array.
+func (f *c11Family) setSlice(i, a, off, n int) {
+	f.clients[i].SetRedirectPolicy(f.arrs[a][off : off+n]...)
+	f.ops = append(f.ops, "S."+strconv.Itoa(i)+"."+strconv.Itoa(a)+"."+strconv.Itoa(off)+"."+strconv.Itoa(n))
+	if n == 0 {
+		f.emptied = true
+		return
+	}
+	f.shared = true
+	f.want[i] = append([]c11Pol(nil), f.arrDesc[a][off:off+n]...)
+	f.alias[i] = &[3]int{a, off, n}
+	f.noteSet(i)
+}
+
+// write: the caller stores another policy into a cell of one of its arrays (reuse as a scratch buffer,
+// append to a prefix within capacity).
+func (f *c11Family) write(a, idx int, p c11Pol) {
+	f.arrs[a][idx] = p.real()
+	f.arrDesc[a][idx] = p
+	f.callerWrote = true
+	f.ops = append(f.ops, "w."+strconv.Itoa(a)+"."+strconv.Itoa(idx)+"."+p.enc())
+}
+
+// aliasPols: what client j would enforce if its closure read the caller's slice NOW (the behaviour
+// before fixes/C11-4); nil when it was configured from literal arguments.
+func (f *c11Family) aliasPols(j int) []c11Pol {
+	if f.alias[j] == nil {
+		return nil
+	}
+	a := f.alias[j]
+	return f.arrDesc[a[0]][a[1] : a[1]+a[2]]
+}
+
+func (f *c11Family) noteSet(i int) {
+	f.ownSet[i] = true
+	for k, p := range f.parent {
+		if p == i {
+			f.parSet[k] = true
+		}
+	}
 }
 
 func (f *c11Family) set(i int, ps []c11Pol) {
@@ -697,12 +764,8 @@ func (f *c11Family) set(i int, ps []c11Pol) {
 		return
 	}
 	f.want[i] = ps
-	f.ownSet[i] = true
-	for k, p := range f.parent {
-		if p == i {
-			f.parSet[k] = true
-		}
-	}
+	f.alias[i] = nil
+	f.noteSet(i)
 }
 
 func (f *c11Family) clone(i int) {
@@ -712,6 +775,7 @@ func (f *c11Family) clone(i int) {
 	f.depth = append(f.depth, f.depth[i]+1)
 	f.ownSet = append(f.ownSet, false)
 	f.parSet = append(f.parSet, false)
+	f.alias = append(f.alias, f.alias[i])
 	f.ops = append(f.ops, "c."+strconv.Itoa(i))
 }
 
@@ -726,10 +790,40 @@ func (f *c11Family) encOps() string {
 func (f *c11Family) grow(r *rand.Rand, gen func() []c11Pol) {
 	for n := 1 + r.Intn(5); n > 0; n-- {
 		i := r.Intn(len(f.clients))
-		switch k := r.Intn(10); {
+		switch k := r.Intn(14); {
 		case k < 5:
 			f.clone(i)
+		case k < 7:
+			f.set(i, gen()) // literal arguments
 		case k < 9:
+			// a caller-owned slice with spare capacity (built by append / make(len, cap))
+			a := f.alloc(gen(), r.Intn(4))
+			n := len(f.arrDesc[a])
+			for n > 1 && f.arrDesc[a][n-1].kind == "nil" && r.Intn(4) != 0 {
+				n-- // usually the logical length, sometimes reaching into the spare cells
+			}
+			f.setSlice(i, a, 0, n)
+		case k < 12 && len(f.arrs) > 0:
+			// another client (or the same again) from the SAME array: a prefix, a suffix, an overlapping window
+			a := r.Intn(len(f.arrs))
+			n := len(f.arrDesc[a])
+			off := 0
+			if r.Intn(3) == 0 {
+				off = r.Intn(n)
+			}
+			l := 1 + r.Intn(n-off)
+			if r.Intn(2) == 0 && l > 1 {
+				l = 1 + r.Intn(l-1) // a shorter prefix: spare capacity right behind it holds OTHER clients' policies
+			}
+			if r.Intn(12) == 0 {
+				l = 0
+			}
+			f.setSlice(i, a, off, l)
+		case k == 12 && f.writes && len(f.arrs) > 0:
+			a := r.Intn(len(f.arrs))
+			ps := gen()
+			f.write(a, r.Intn(len(f.arrDesc[a])), ps[r.Intn(len(ps))])
+		case k < 13:
 			f.set(i, gen())
 		default:
 			f.set(i, nil) // SetRedirectPolicy() with no argument: must change nothing
